@@ -551,9 +551,8 @@ func RunC09c(p *LockProgram) Result {
 				a.pc++
 				c["blocked-then-woken"]++
 				progressed = true
-				if r := checkState("after wake-up of " + op.name); r != nil {
-					return *r
-				}
+				// the state is compared once all woken waiters have been accounted for
+				pendingCheck = "after wake-up of " + op.name
 			}
 		}
 		if pendingCheck != "" {
@@ -574,8 +573,11 @@ func RunC09c(p *LockProgram) Result {
 				continue
 			}
 			op := a.ops[a.pc]
-			if mustBlock(op) && waitingOn[op.which] > 0 {
-				continue // keep at most one waiter per lock kind
+			if mustBlock(op) && waitingOn[op.which] > 0 && op.which != "shared" {
+				// at most one waiter on the reserved/exclusive lock keeps the expectation
+				// deterministic; any number of readers may wait for the pending lock
+				// (all of them must be woken when it is released)
+				continue
 			}
 			enabled = append(enabled, ai)
 		}
